@@ -14,6 +14,7 @@ import (
 	"github.com/robustirc/robustirc/internal/ircserver"
 	"github.com/robustirc/robustirc/internal/outputstream"
 	"github.com/robustirc/robustirc/internal/robust"
+	"github.com/robustirc/robustirc/internal/verifhook"
 	"github.com/stapelberg/glog"
 )
 
@@ -96,8 +97,10 @@ func (api *HTTP) getMessages(ctx context.Context, lastSeen robust.Id, msgschan c
 		case msgschan <- outputToRobustMessages(msgs[lastSeen.Reply:]):
 		}
 	}
+	verifhook.At("getmessages.get", "ctx", ctx, "lastseen", lastSeen)
 
 	for {
+		verifhook.At("getmessages.getnext", "ctx", ctx, "lastseen", lastSeen)
 		if msgs = api.output().GetNext(ctx, lastSeen); len(msgs) == 0 {
 			if ctx.Err() != nil {
 				return
@@ -114,6 +117,7 @@ func (api *HTTP) getMessages(ctx context.Context, lastSeen robust.Id, msgschan c
 			glog.Warningf("This should only happen while the server is recovering from a snapshot\n")
 			glog.Warningf("The message in question is %v\n", msgs[0])
 			// Prevent busylooping while new messages are applied.
+			verifhook.At("getmessages.backoff", "ctx", ctx, "lastseen", lastSeen, "got", msgs[0].Id)
 			time.Sleep(250 * time.Millisecond)
 			continue
 		}
